@@ -305,6 +305,8 @@ class Model(object):
         W = np.zeros((self.npt(), self.n()+1))
         if self.precondition:
             approx_delta = sqrt(np.max(self.distances_to_xopt()))  # largest distance to xopt ~ delta
+            if not approx_delta > 0.0:
+                approx_delta = 1.0  # all points coincide (or NaN): no scaling; the singular system is reported by the solve
         else:
             approx_delta = 1.0
 
